@@ -188,6 +188,35 @@ def _replay_revision(model, rec):
         if cp.revision != v or not proper:
             return {"confirmed": True, "witness_class": "revision-bool" if isinstance(v, bool) else "revision",
                     "detail": "revision = %r is accepted, stored as %r and reads back %r" % (v, cp._element.revision.text, cp.revision)}
+    # improper values that compare equal to what the property currently reads: after 7, the float 7.0; on a deck without cp:revision
+    # (reads 0): 0, False, 0.0 -- each must be refused like any other improper value
+    import io
+    import re
+    import zipfile
+
+    for prior, probes in ((7, [7.0, decimal.Decimal(7), _fr.Fraction(7, 1)]), (None, [0, False, 0.0])):
+        for v in probes:
+            prs = Presentation()
+            if prior is None:
+                b = io.BytesIO()
+                prs.save(b)
+                out = io.BytesIO()
+                with zipfile.ZipFile(io.BytesIO(b.getvalue())) as zin, zipfile.ZipFile(out, "w", zipfile.ZIP_DEFLATED) as zout:
+                    for n in zin.namelist():
+                        d = zin.read(n)
+                        if n == "docProps/core.xml":
+                            d = re.sub(rb"<cp:revision>[^<]*</cp:revision>", b"", d)
+                        zout.writestr(n, d)
+                prs = Presentation(io.BytesIO(out.getvalue()))
+            cp = prs.core_properties
+            if prior is not None:
+                cp.revision = prior
+            before = cp.revision
+            try:
+                cp.revision = v
+            except ValueError:
+                continue
+            return {"confirmed": True, "witness_class": "revision", "detail": "revision reads %r; revision = %r (equal to it, but not a positive integer) is accepted" % (before, v)}
     return {"confirmed": False, "detail": "revision behaves on the probed values"}
 
 
@@ -696,3 +725,129 @@ def _native_roundtrip(tier="quick", seed=0):
 
 
 JOBS = {"C18.native_roundtrip": _native_roundtrip}
+
+
+# ---------------------------------------------------------------------------------------------------------
+# every default part gets an element of its own
+
+
+def _replay_fresh(model, rec):
+    r = _native_roundtrip(tier="quick", seed=0)
+    bad = [o for o in r["obligations"] if o["status"] == "refuted" and "default_part" in o["name"]]
+    if bad:
+        return {"confirmed": True, "witness_class": "default-part", "detail": bad[0]["replay"]["detail"]}
+    return {"confirmed": False, "detail": "default parts of two packages are independent"}
+
+
+@contract("C18", "C18.oxml.coreprops.CT_CoreProperties.new_coreProperties.fresh_element_per_call", replay=_replay_fresh)
+def _new_core_fresh(c):
+    """two calls give two elements: each comes from its own parse of the template (no element is kept and handed out again)."""
+    from pptx.oxml.coreprops import CT_CoreProperties
+
+    made = []
+
+    def parse(it, a, k):
+        e = SObj(None, "parsed_%d" % len(made), __external__=True)
+        made.append((e, a[0] if a else None))
+        return e
+
+    c.summaries["pptx.oxml:parse_xml"] = parse
+    c.summaries["pptx.oxml.coreprops:parse_xml"] = parse
+    c.path.assumed.add("parse_xml returns a new element tree per call")
+    fn = CT_CoreProperties.__dict__["new_coreProperties"]
+    fn = getattr(fn, "__func__", fn)
+    import inspect
+
+    takes_cls = len(inspect.signature(fn).parameters) >= 1
+    a = c.run(fn, *([CT_CoreProperties] if takes_cls else []))
+    b = c.run(fn, *([CT_CoreProperties] if takes_cls else []))
+    if a.raised or b.raised:
+        c.fails("never_raises", "raised %s" % (a.exc if a.raised else b.exc))
+        return
+    c.ensures("post.two_calls_two_elements", a.value is not b.value)
+    c.ensures("post.each_from_its_own_parse", len(made) == 2 and a.value is made[0][0] and b.value is made[1][0])
+    c.ensures("post.parsed_from_the_template", all(isinstance(t, str) and t.lstrip().startswith("<cp:coreProperties") for _, t in made))
+
+
+# ---------------------------------------------------------------------------------------------------------
+# the part-level properties (what `prs.core_properties.X = v` calls): every value reaches the validating element setter, or is
+# known to be the proper value already there
+
+
+class _CoreElem:
+    """cp:coreProperties seen through its element-level properties: a store of an improper value raises ValueError (contracts above),
+    a proper one is kept."""
+
+    __pyvc_symbolic__ = True
+
+    def __init__(self, fields, improper):
+        self.fields = dict(fields)
+        self.improper = improper  # attr name -> (value -> z3 Bool / bool)
+        self.stores = []
+
+    def sym_truth(self, it):
+        return True
+
+    def sym_getattr(self, it, name):
+        if name in self.fields:
+            return self.fields[name]
+        raise Unsupported("element attribute %s is not part of the core-properties view" % name)
+
+    def sym_setattr(self, it, name, v):
+        from pyvc.engine import PyRaise
+
+        bad = self.improper.get(name, lambda _v: False)(v)
+        if not isinstance(bad, bool):
+            bad = it.path.branch(bad)
+        if bad:
+            raise PyRaise(ValueError, ("improper value",))
+        self.stores.append(name)
+        self.fields[name] = v
+
+
+def _make_part_prop(api, attr, kind):
+    @contract("C18", "C18.parts.coreprops.CorePropertiesPart.%s.fset[%s]" % (api, kind), replay=_replay_revision if api == "revision" else _replay_text)
+    def body(c):
+        """an improper value never returns normally (it reaches the validating element setter whatever the property currently reads);
+        after a normal return the element holds the value assigned, and nothing else was stored."""
+        from pptx.parts.coreprops import CorePropertiesPart
+
+        if kind == "int":
+            v, cur = c.int("value"), c.int("current")
+            improper = lambda x: x < 1 if z3.is_expr(x) else (not isinstance(x, int) or x < 1)
+            is_improper = v < 1
+        elif kind == "real":
+            v, cur = c.real("value"), c.int("current")
+            improper = lambda x: True if (z3.is_expr(x) and z3.is_real(x)) or isinstance(x, float) else (x < 1)
+            is_improper = z3.BoolVal(True)
+        else:
+            v = SStr([Atom("value", zs=z3.String("value"))])
+            cur = SStr([Atom("current", zs=z3.String("current"))])
+            TOO_LONG = z3.Function("TOO_LONG", z3.StringSort(), z3.BoolSort())  # what the element setter refuses (contracts above: > 255 characters)
+            improper = lambda x: TOO_LONG(x.z3()) if hasattr(x, "z3") else len(x) > 255
+            is_improper = TOO_LONG(z3.String("value"))
+        elem = _CoreElem({attr: cur}, {attr: improper})
+        part = SObj(CorePropertiesPart, "core_properties_part", _element=elem)
+        prop = CorePropertiesPart.__dict__[api]
+        out = c.run(prop.fset, part, v)
+        if out.raised:
+            c.ensures("raises.only_ValueError_for_an_improper_value", z3.And(z3.BoolVal(out.exc.exc_cls is ValueError), is_improper))
+            c.ensures("raises.nothing_stored", not elem.stores)
+            return
+        c.ensures("post.only_proper_values_return_normally", z3.Not(is_improper))
+        got = elem.fields[attr]
+        if kind == "str":
+            c.ensures("post.element_holds_the_value", got.z3() == z3.String("value"))
+        else:
+            c.ensures("post.element_holds_the_value", got == v)
+        c.ensures("frame.no_other_store", all(s == attr for s in elem.stores))
+
+    return body
+
+
+for _api, _attr in (("author", "author_text"), ("category", "category_text"), ("comments", "comments_text"), ("content_status", "contentStatus_text"), ("identifier", "identifier_text"),
+                    ("keywords", "keywords_text"), ("language", "language_text"), ("last_modified_by", "lastModifiedBy_text"), ("subject", "subject_text"), ("title", "title_text"),
+                    ("version", "version_text")):
+    _make_part_prop(_api, _attr, "str")
+_make_part_prop("revision", "revision_number", "int")
+_make_part_prop("revision", "revision_number", "real")
